@@ -18,7 +18,7 @@ RULE = ('combinator trees of depth <= 4 over the atoms {M op c, M(T-expr) op c, 
         'each constant, a string, None, a dict with and without the accessed key); observed: result, exception class, and the probe '
         'log (which children ran). Non-trivial: >= 2 combinators or a default.')
 ASSUMPTIONS = ['ordering comparisons are modelled on ints / bools / strings; other operand types are Unmodelled (not counted)',
-               'values that are not equal to themselves (NaN, Decimal NaN, a NULL-like object) are outside the value model: 45 selfcmp cases decide M == c / M != c on the same object against Python\'s own operators, on the implementation side']
+               'values that are not equal to themselves (NaN, Decimal NaN, a NULL-like object) are outside the value model: selfcmp cases decide M == c / M != c on the same object, and all six comparisons on partially ordered pairs (NaN, sets), against Python\'s own operators, on the implementation side']
 SHARD = 300
 
 TARGETS = [0, 1, 3, 5, 6, 10, -2, 'a', '', None, True,
@@ -182,6 +182,18 @@ def selfcmp_cases():
             out.append(('M %s M on %s' % (opname, name), x, op(M, M), op(x, x)))
             out.append(('And(M %s %s, M %s %s)' % (opname, name, opname, name), x, And(op(M, x), op(M, x)), op(x, x)))
         out.append(('Switch on %s' % name, x, Switch([(M == x, Val('equal')), (M != x, Val('not equal'))]), 'equal' if x == x else 'not equal'))
+    # PARTIAL orders: pairs for which neither <= nor >= holds (NaN against a number, sets none of which contains the other): each of
+    # the six comparisons decides like Python's own operator on the pair — a >= is not "not <"
+    nan = float('nan')
+    pairs = [('nan vs 0', nan, 0), ('5.0 vs nan', 5.0, nan), ('{1,2} vs {3}', {1, 2}, {3}), ('{1,2} vs {2,3}', {1, 2}, {2, 3}),
+             ('frozenset vs frozenset', frozenset('ab'), frozenset('bc')), ('{1} vs {1,2}', {1}, {1, 2}), ('{1,2} vs {1,2}', {1, 2}, {1, 2}), ('2 vs 3', 2, 3)]
+    for name, a, b in pairs:
+        for opname, op in (('==', operator.eq), ('!=', operator.ne), ('<', operator.lt), ('<=', operator.le), ('>', operator.gt), ('>=', operator.ge)):
+            out.append(('M %s c on %s' % (opname, name), a, op(M, b), op(a, b)))
+            out.append(('M(T[v]) %s c on %s' % (opname, name), {'v': a}, op(M(T['v']), b), op(a, b)))
+        out.append(('~(M >= c) on %s' % name, a, ~(M >= b), not (a >= b)))
+        out.append(('(M >= c) & (M <= c) on %s' % name, a, (M >= b) & (M <= b), (a >= b) and (a <= b)))
+        out.append(('Switch by >= on %s' % name, a, Switch([(M >= b, Val('ge')), (M, Val('other'))], default=Val('other')), 'ge' if a >= b else 'other'))
     return out
 
 
